@@ -99,6 +99,20 @@ Proof.
   apply map_ext. intros v. do 2 f_equal. ring.
 Qed.
 
+(* the same with the sum named, so that the goals of one row share one enclosure of the sum *)
+Lemma kscomp_out_shiftS mn lw up rho g m S :
+  S = sumR (exponents rho m (con_val mn lw up g)) ->
+  g <> [] -> rho <> 0 ->
+  kscomp_out mn lw up rho g = sgn mn * (m + 1 / rho * ln S).
+Proof. intros ->. apply kscomp_out_shift. Qed.
+
+Lemma kscomp_partials_shiftS mn lw up rho g m S :
+  S = sumR (exponents rho m (con_val mn lw up g)) ->
+  g <> [] -> rho <> 0 ->
+  kscomp_partials mn lw up rho g =
+  map (fun c => sgn lw * (exp (rho * (c - m)) / S)) (con_val mn lw up g).
+Proof. intros ->. apply kscomp_partials_shift. Qed.
+
 (* --- tactics for the generated goals --- *)
 Ltac q_nonzero := unfold Q2R; cbn [Qnum Qden]; lra.
 
@@ -107,4 +121,6 @@ Ltac ks_expose :=
   cbn [map sumR nth];
   unfold Q2R; cbn [Qnum Qden].
 
+Ltac ks_sum_bounds S := unfold S; ks_expose; split; interval.
+Ltac ks_closeS S := clearbody S; ks_expose; interval.
 Ltac ks_close := ks_expose; first [ interval | interval with (i_prec 90) ].
